@@ -1,6 +1,6 @@
 (* C13 -- the oracle theorem: for every valid scenario the model's observation satisfies the model-free spec. *)
 From Coq Require Import NArith ZArith Bool List Lia ZifyBool.
-From CppUVerif Require Import lib.Str C13_Text C13_Alloc C13_Model C13_Proofs C13_Replace C13_Printable C13_Concat.
+From CppUVerif Require Import lib.Str C13_Text C13_Alloc C13_Model C13_Proofs C13_Replace C13_Printable C13_Concat C13_Atoi.
 Import ListNotations.
 Local Open Scope N_scope.
 Arguments diff : simpl never.
@@ -16,7 +16,9 @@ Qed.
 Lemma eval_expected o : valid o = true -> eval o = expected o.
 Proof.
   destruct o; cbn [valid eval expected]; intro V; split_valid V;
-  try (match goal with |- context [printable_m] => pose proof (nonul_bytes _ V) as Vb end); nn; unfold cs, bz.
+  try (match goal with |- context [printable_m] => pose proof (nonul_bytes _ V) as Vb end);
+  try (match goal with |- context [AtoI] => pose proof (nonul_bytes _ V) as Vb end);
+  try (match goal with |- context [AtoU] => pose proof (nonul_bytes _ V) as Vb end); nn; unfold cs, bz.
   - rewrite StrLen_ok by assumption. reflexivity.
   - destruct (StrCmp_ok a b [] [] V V0) as [d [E S]]. rewrite E. cbn. rewrite S. reflexivity.
   - destruct (StrNCmp_ok n a b [] [] V V0) as [d [E S]]. rewrite E. cbn. rewrite S. reflexivity.
@@ -48,6 +50,8 @@ Proof.
   - rewrite plus_ok by assumption. cbn. rewrite app_assoc, cstr_of_cs by (apply NN_app; split; assumption). reflexivity.
   - rewrite copyToBuffer_ok by assumption. reflexivity.
   - rewrite format_ok by (apply NN_app; split; assumption). cbn. rewrite cstr_of_cs by (apply NN_app; split; assumption). reflexivity.
+  - rewrite AtoI_ok; [reflexivity | exact Vb | unfold t_fits_int in V0; lia].
+  - rewrite AtoU_ok by exact Vb. reflexivity.
 Qed.
 Lemma pairing_ok o : pairing o = true.
 Proof. destruct o; try reflexivity. apply format_paired. Qed.
